@@ -6,18 +6,17 @@ From Exactly Require Import Lib.Tree Model.Files Spec.C15 Proofs.FilesGen Proofs
 Import ListNotations.
 
 Section Cor.
-  Variable gs : nat -> name -> option bool.
-  Variable gp : nat -> path -> option bool.
+  Variable O : oracles.
 
   (** whenever the manual's semantics gives a verdict, the code gives it, whatever the listing order *)
   Theorem fm_sound : forall scandir, (forall p l, Permutation (scandir p l) l) ->
-    forall m e b, sem_fm gs gp m e = Some b -> eval_fm scandir gs gp m e = Ok b.
-  Proof. intros scandir HP. exact (proj1 (matchers_sound scandir HP gs gp)). Qed.
+    forall m e b, sem_fm O m e = Some b -> eval_fm scandir O m e = Ok b.
+  Proof. intros scandir HP. exact (proj1 (matchers_sound scandir HP O)). Qed.
 
   Theorem order_insensitive : forall sc1 sc2,
     (forall p l, Permutation (sc1 p l) l) -> (forall p l, Permutation (sc2 p l) l) ->
-    forall m e b, sem_fm gs gp m e = Some b ->
-    eval_fm sc1 gs gp m e = Ok b /\ eval_fm sc2 gs gp m e = Ok b.
+    forall m e b, sem_fm O m e = Some b ->
+    eval_fm sc1 O m e = Ok b /\ eval_fm sc2 O m e = Ok b.
   Proof. intros sc1 sc2 H1 H2 m e b H. split; apply fm_sound; assumption. Qed.
 
   (** ** The declarative semantics only looks at the values of the selection and prune functions *)
@@ -44,7 +43,7 @@ Section Cor.
   Qed.
 
   Lemma sem_fsm_ext : forall m d a c s1 s2 p1 p2, (forall e, s1 e = s2 e) -> (forall e, p1 e = p2 e) ->
-    sem_fsm gs gp m (SModel d a c s1 p1) = sem_fsm gs gp m (SModel d a c s2 p2).
+    sem_fsm O m (SModel d a c s1 p1) = sem_fsm O m (SModel d a c s2 p2).
   Proof.
     induction m as [b| |op n|f|f|full fc|f m IH|f m IH|m IH|m1 IH1 m2 IH2|m1 IH1 m2 IH2]; intros d a c s1 s2 p1 p2 Hs Hp;
       cbn [sem_fsm sm_dir sm_abs sm_cfg sm_sel sm_prune]; try rewrite (spec_files_ext d a c s1 s2 p1 p2 Hs Hp); try reflexivity.
@@ -57,7 +56,7 @@ Section Cor.
 
   (** -selection f (-selection g M) selects by (f && g) *)
   Theorem selection_conj : forall f g m SM,
-    sem_fsm gs gp (SSelection f (SSelection g m)) SM = sem_fsm gs gp (SSelection (FAnd f g) m) SM.
+    sem_fsm O (SSelection f (SSelection g m)) SM = sem_fsm O (SSelection (FAnd f g) m) SM.
   Proof.
     intros f g m [d a c s p]. cbn [sem_fsm sm_dir sm_abs sm_cfg sm_sel sm_prune].
     apply sem_fsm_ext; [|reflexivity]. intros e. cbn [sem_fm]. destruct (s e) as [[|]|]; cbn; try reflexivity.
@@ -65,7 +64,7 @@ Section Cor.
 
   (** -with-pruned f (-with-pruned g M) prunes by (f || g) *)
   Theorem prune_disj : forall f g m SM,
-    sem_fsm gs gp (SPrune f (SPrune g m)) SM = sem_fsm gs gp (SPrune (FOr f g) m) SM.
+    sem_fsm O (SPrune f (SPrune g m)) SM = sem_fsm O (SPrune (FOr f g) m) SM.
   Proof.
     intros f g m [d a c s p]. cbn [sem_fsm sm_dir sm_abs sm_cfg sm_sel sm_prune].
     apply sem_fsm_ext; [reflexivity|]. intros e. cbn [sem_fm]. destruct (p e) as [[|]|]; cbn; try reflexivity.
@@ -73,7 +72,7 @@ Section Cor.
 
   (** pruning is done before selection, "regardless of their mutual order" (manual) *)
   Theorem selection_prune_commute : forall f g m SM,
-    sem_fsm gs gp (SSelection f (SPrune g m)) SM = sem_fsm gs gp (SPrune g (SSelection f m)) SM.
+    sem_fsm O (SSelection f (SPrune g m)) SM = sem_fsm O (SPrune g (SSelection f m)) SM.
   Proof. intros f g m [d a c s p]. reflexivity. Qed.
 End Cor.
 
